@@ -279,6 +279,13 @@ def _main(prop, args, seed, t0):
     if args.replay:
         rp = json.loads(Path(args.replay).read_text())
         replay_case = rp.get("case")
+        if replay_case is None or not getattr(prop, "CASE_REPLAY", False):
+            # generic replay: every random choice derives from the seed, so re-running the
+            # recorded tier with the recorded seed reproduces the recorded case exactly
+            replay_case = None
+            seed = int(rp.get("seed", seed))
+            args.tier = rp.get("tier", args.tier)
+            thorough = args.tier == "thorough"
 
     # ---- proof obligations -------------------------------------------------
     if args.no_build:
